@@ -134,6 +134,20 @@ def build(variant, quiet=True):
         lock.close()
 
 
+def build_fsx():
+    """the ptrace-based file-system controller (independent of the SUT)"""
+    os.makedirs(os.path.join(BUILD, "fsx"), exist_ok=True)
+    src = os.path.join(VERIF, "engine/fsx/fsx.cpp")
+    out = os.path.join(BUILD, "fsx", "fsx")
+    if not os.path.exists(out) or os.path.getmtime(out) < os.path.getmtime(src):
+        r = subprocess.run(["g++", "-std=c++17", "-O2", "-w", src, "-o", out + ".tmp"], stdout=subprocess.PIPE, stderr=subprocess.STDOUT, text=True)
+        if r.returncode != 0:
+            sys.stderr.write(r.stdout[-4000:])
+            raise SystemExit("build of fsx failed")
+        os.replace(out + ".tmp", out)
+    return out
+
+
 def build_ref():
     """the reference helper (Botan), independent of the SUT"""
     os.makedirs(os.path.join(BUILD, "ref"), exist_ok=True)
@@ -157,4 +171,4 @@ def build_ref():
 
 if __name__ == "__main__":
     for v in sys.argv[1:] or ["ossl-plain"]:
-        print(build_ref() if v == "ref" else build(v, quiet=False))
+        print(build_ref() if v == "ref" else (build_fsx() if v == "fsx" else build(v, quiet=False)))
